@@ -1825,4 +1825,160 @@ Section Sim.
           exact Hout.
   Qed.
 
+  (* ====================================================================== *)
+  (* the fast loop in partial mode                                            *)
+  (* ====================================================================== *)
+
+  (* [safe_match] in partial mode anywhere in the buffer (match inside prefix + output) *)
+  Lemma safe_match_part s offset length :
+    partial = true ->
+    1 <= offset -> lowPrefix <= op s - offset -> 4 <= length -> 0 <= op s -> op s <= oend ->
+    is_cont_or_done (safe_match partial dict oend lowPrefix rlow dictm dictSize s offset length)
+      (fun done s' => ip s' = ip s /\ op s' = op s + Z.min length (oend - op s) /\
+                      same_below (dm s) (dm s') (op s) /\
+                      frec (vget (dm s')) offset (op s) (op s + Z.min length (oend - op s)) /\
+                      (if done then op s' = oend else op s' = op s + length)).
+  Proof.
+    intros Hp Ho Hmat Hlen Hop Hoe.
+    destruct (Z_le_gt_dec (op s + length) (oend - 12)) as [Hfar|Hnear].
+    - eapply is_cont_cod.
+      + pose proof hroom_range. apply (safe_match_v s offset length); try assumption; try lia; try (rewrite Hp; exact Hfar).
+      + intros s' (H1 & H2 & H3 & H4).
+        replace (Z.min length (oend - op s)) with length by lia. repeat split; assumption.
+    - eapply is_cod_mono.
+      + apply (safe_match_cut s offset length); try assumption; lia.
+      + cbn beta. intros done s' (H1 & H2 & H3 & H4 & H5).
+        split; [exact H1|]. split; [exact H2|]. split; [exact H3|]. split; [apply lzrec_v; [exact H4 | lia | lia]|].
+        destruct done; [exact H5 | lia].
+  Qed.
+
+  (* the image after a possibly cut match, in terms of the specification's complete copy *)
+  Lemma cut_match_out (m1 m' : mem) o off mlen n (rout0 rout1 : list Z) :
+    out_at (vget m1) o rout0 -> same_below m1 m' o ->
+    copy_match rout0 (Z.to_nat off) (Z.to_nat mlen) = Some rout1 -> 1 <= off ->
+    0 <= n <= mlen -> frec (vget m') off o (o + n) ->
+    out_at (vget m') (o + n) (skipn (Z.to_nat (mlen - n)) rout1).
+  Proof.
+    intros O S Hcm Hoff Hn R.
+    replace (Z.to_nat mlen) with (Z.to_nat n + Z.to_nat (mlen - n))%nat in Hcm by lia.
+    destruct (copy_match_prefix _ _ _ _ _ Hcm) as (rc & Hc1 & Hc2).
+    apply copy_match_skipn in Hc2. unfold byte in *. rewrite Hc2.
+    replace n with (Z.of_nat (Z.to_nat n)) at 1 by lia.
+    apply copy_match_out with (rout := rout0) (off := Z.to_nat off).
+    - lia.
+    - exact Hc1.
+    - eapply out_at_v_same_below; eauto.
+    - replace (Z.of_nat (Z.to_nat off)) with off by lia.
+      replace (Z.of_nat (Z.to_nat n)) with n by lia. exact R.
+  Qed.
+
+  (* outcome of a fast-loop step in partial mode: Cont in either loop (and then the fast loop's
+     distance invariant), or Done *)
+  Definition is_cod_any (out : dout) (P : bool -> dstate -> Prop) : Prop :=
+    match out with
+    | Cont f s' => P false s' /\ (f = true -> op s' <= oend - 64)
+    | Done s' => P true s'
+    | Err _ => False
+    end.
+  Lemma is_cod_any_mono out (P Q : bool -> dstate -> Prop) :
+    is_cod_any out P -> (forall d s', P d s' -> Q d s') -> is_cod_any out Q.
+  Proof. destruct out as [f s'|s'|s']; cbn [is_cod_any]; intros H HQ; try contradiction; [destruct H; split; auto | auto]. Qed.
+  Lemma is_cod_is_any out P : is_cont_or_done out P -> is_cod_any out P.
+  Proof.
+    destruct out as [[|] s'|s'|s']; cbn [is_cont_or_done is_cod_any]; intros H; try contradiction; try exact H.
+    split; [exact H | discriminate].
+  Qed.
+
+  (* from the offset field to the end of the (possibly cut) match, fast loop, partial mode *)
+  Lemma fast_offset_part (i o : Z) (m1 : mem) kf tok o1 o2 r3 ml r4 rout0 rout1 :
+    partial = true ->
+    0 <= tok < 256 -> bytes (o1 :: o2 :: r3) ->
+    src_at srcm i (o1 :: o2 :: r3) -> 0 <= i -> i + Z.of_nat (length (o1 :: o2 :: r3)) <= iend ->
+    read_len (tok mod 16) r3 = Some (ml, r4) -> (4 <= length r4)%nat ->
+    out_at (vget m1) o rout0 -> Z.of_nat (length rout0) <= o - lowPrefix -> 0 <= o -> o <= oend ->
+    copy_match rout0 (Z.to_nat (o1 + 256 * o2)) (Z.to_nat (ml + 4)) = Some rout1 ->
+    1 <= o1 + 256 * o2 ->
+    is_cod_any (fast_offset partial dict srcm iend oend lowPrefix rlow dictm dictSize (mkD i o m1 kf) tok)
+      (part_post o (ml + 4) rout1
+         (fun s' => ip s' = i + 2 + (Z.of_nat (length r3) - Z.of_nat (length r4)) /\ src_at srcm (ip s') r4)).
+  Proof.
+    intros Hp Htok Hb Hs Hi Hie Hrl Hr4 O Hlen Ho Hoe Hcm Hoff.
+    unfold byte in *.
+    destruct (nibbles tok Htok) as [_ Hnib].
+    pose proof (readLE16_src _ _ _ _ Hs) as Hle.
+    destruct (src_at_cons _ _ _ _ Hs) as [_ Hs1]. destruct (src_at_cons _ _ _ _ Hs1) as [_ Hs2].
+    destruct (bytes_cons _ _ Hb) as [_ Hb1]. destruct (bytes_cons _ _ Hb1) as [_ Hb2].
+    replace (i + 1 + 1) with (i + 2) in Hs2 by lia.
+    cbn [length] in Hie.
+    destruct (read_len_suffix _ _ _ _ _ Hnib Hrl Hb2 Hs2) as (Hl2 & Hml & Hnoext2 & Hs5 & Hb5). unfold byte in *.
+    assert (Hml0 : 0 <= ml) by lia.
+    assert (Hoffle : o1 + 256 * o2 <= Z.of_nat (length rout0)).
+    { replace (Z.to_nat (ml + 4)) with (S (Z.to_nat (ml + 3))) in Hcm by lia.
+      apply copy_match_off in Hcm. unfold byte in *. lia. }
+    pose proof hroom_range as Hhr.
+    (* a complete copy *)
+    assert (Hfull : forall p kf' s', ip s' = p -> src_at srcm p r4 -> p = i + 2 + (Z.of_nat (length r3) - Z.of_nat (length r4)) ->
+               vmatch_post (mkD p o m1 kf') (o1 + 256 * o2) (ml + 4) s' -> o + (ml + 4) <= oend ->
+               part_post o (ml + 4) rout1
+                 (fun s' => ip s' = i + 2 + (Z.of_nat (length r3) - Z.of_nat (length r4)) /\ src_at srcm (ip s') r4) false s').
+    { intros p kf'' s' Hpp Hsp Hpe (H1 & H2 & H3 & H4) Hfit. cbn [ip op dm] in *. unfold part_post.
+      replace (Z.min (ml + 4) (oend - o)) with (ml + 4) by lia.
+      split; [exact H2|]. split.
+      - rewrite H2. apply (cut_match_out m1 (dm s') o (o1 + 256 * o2) (ml + 4) (ml + 4) rout0 rout1); try assumption; lia.
+      - split; [reflexivity|]. split; [lia|]. rewrite Hpp. exact Hsp. }
+    (* the safe_match exits (partial) *)
+    assert (Hsm : forall p kf', src_at srcm p r4 -> p = i + 2 + (Z.of_nat (length r3) - Z.of_nat (length r4)) ->
+               is_cod_any (safe_match partial dict oend lowPrefix rlow dictm dictSize (mkD p o m1 kf') (o1 + 256 * o2) (ml + 4))
+                 (part_post o (ml + 4) rout1
+                   (fun s' => ip s' = i + 2 + (Z.of_nat (length r3) - Z.of_nat (length r4)) /\ src_at srcm (ip s') r4))).
+    { intros p kf' Hsp Hpe. apply is_cod_is_any. eapply is_cod_mono.
+      - apply (safe_match_part (mkD p o m1 kf') (o1 + 256 * o2) (ml + 4)); cbn [ip op dm]; try assumption; lia.
+      - cbn [ip op dm]. intros done s' (H1 & H2 & H3 & H4 & H5). unfold part_post.
+        split; [exact H2|]. split.
+        + rewrite H2. apply (cut_match_out m1 (dm s') o (o1 + 256 * o2) (ml + 4) _ rout0 rout1); try assumption; lia.
+        + destruct done; [exact H5|]. split; [lia|]. split; [lia|]. rewrite H1. exact Hsp. }
+    unfold fast_offset. cbv zeta. cbn [ip op dm ok]. rewrite Hle.
+    destruct (tok mod 16 =? ML_MASK) eqn:E15; cbv beta iota.
+    - unfold read_len in Hrl. assert (E15' : (tok mod 16 =? 15) = true) by fin. rewrite E15' in Hrl.
+      destruct (rvl_sim r3 ml r4 (i + 2) (iend - LASTLITERALS + 1) false (kf && rd_src iend i 2) Hrl Hs2) as (_ & _ & kf' & Hr); [fin | fin | fin |].
+      rewrite Hr. cbv beta iota. unfold byte.
+      replace (tok mod 16 + (ml - 15) + MINMATCH) with (ml + 4) by fin.
+      destruct (o + (ml + 4) >=? oend - FASTLOOP_SAFE_DISTANCE) eqn:Efar; cbv beta iota.
+      + apply Hsm; [exact Hs5 | reflexivity].
+      + pose proof (fast_match_sim (mkD (i + 2 + (Z.of_nat (length r3) - Z.of_nat (length r4))) o m1 kf') (o1 + 256 * o2) (ml + 4)) as HF.
+        cbn [ip op dm] in HF.
+        destruct (fast_match partial dict oend lowPrefix rlow dictm dictSize
+                    (mkD (i + 2 + (Z.of_nat (length r3) - Z.of_nat (length r4))) o m1 kf') (o1 + 256 * o2) (ml + 4)) as [f' s'|s'|s'];
+          cbn [is_cont_any is_cod_any] in *; try (exfalso; apply HF; fin).
+        assert (Hv := HF ltac:(lia) ltac:(lia) ltac:(lia) ltac:(lia) ltac:(fin)).
+        pose proof Hv as (H1 & H2 & _). cbn [ip op] in H1, H2.
+        split; [|intros _; fin].
+        apply (Hfull _ kf' s' H1 Hs5 eq_refl Hv). fin.
+    - assert (Hlt15 : tok mod 16 < 15) by fin.
+      destruct (Hnoext2 Hlt15) as [Eml Er4].
+      replace (tok mod 16 + MINMATCH) with (ml + 4) by fin.
+      assert (Hs5' : src_at srcm (i + 2) r4) by (rewrite Er4; exact Hs2).
+      assert (Hip' : i + 2 = i + 2 + (Z.of_nat (length r3) - Z.of_nat (length r4))) by (rewrite Er4; lia).
+      destruct (o + (ml + 4) >=? oend - FASTLOOP_SAFE_DISTANCE) eqn:Efar; cbv beta iota.
+      + apply Hsm; assumption.
+      + destruct ((is_prefix64k dict || (o - (o1 + 256 * o2) >=? lowPrefix)) && (o1 + 256 * o2 >=? 8)) eqn:E18; cbv beta iota.
+        * destruct (copy18_lz m1 o (o1 + 256 * o2)) as [S R]; [lia|].
+          cbn [is_cod_any ip op dm].
+          assert (Hv : vmatch_post (mkD (i + 2) o m1 kf) (o1 + 256 * o2) (ml + 4)
+                         (mkD (i + 2) (o + (ml + 4)) (copy18 m1 o (o - (o1 + 256 * o2))) (kf && rd_src iend i 2 && wr oend o 18 && rd_dst oend rlow (o - (o1 + 256 * o2)) 18))).
+          { unfold vmatch_post. cbn [ip op dm]. split; [reflexivity|]. split; [reflexivity|]. split; [exact S|].
+            apply lzrec_v; [|lia|lia]. eapply lzrec_weaken; [exact R | lia | fin]. }
+          split; [|intros _; fin].
+          refine (Hfull (i + 2) kf _ _ Hs5' Hip' Hv _); [reflexivity | fin].
+        * pose proof (fast_match_sim (mkD (i + 2) o m1 (kf && rd_src iend i 2)) (o1 + 256 * o2) (ml + 4)) as HF.
+          cbn [ip op dm] in HF.
+          destruct (fast_match partial dict oend lowPrefix rlow dictm dictSize
+                      (mkD (i + 2) o m1 (kf && rd_src iend i 2)) (o1 + 256 * o2) (ml + 4)) as [f' s'|s'|s'];
+            cbn [is_cont_any is_cod_any] in *; try (exfalso; apply HF; fin).
+          assert (Hv := HF ltac:(lia) ltac:(lia) ltac:(lia) ltac:(lia) ltac:(fin)).
+          pose proof Hv as (H1 & H2 & _). cbn [ip op] in H1, H2.
+          split; [|intros _; fin].
+          apply (Hfull _ _ s' H1 Hs5' Hip' Hv). fin.
+  Qed.
+
 End Sim.
